@@ -67,6 +67,24 @@ def taxon_proj(t):
 	return None if t is None else {'key': t.key, 'name': t.name, 'rank': t.rank, 'ncbi_id': t.ncbi_id, 'distance_threshold': t.distance_threshold}
 
 
+def obj_token(obj, paths):
+	"""the object as an attribute graph restricted to the names the paths mention: N = None, T<hex> = a value (its text), R(name=…,…) = a record"""
+	import numpy as np
+	tree = {}
+	for p_ in paths:
+		t = tree
+		for a in p_.split('.'):
+			t = t.setdefault(a, {})
+
+	def enc(o, t):
+		if o is None:
+			return 'N'
+		if not t:
+			return 'T' + hx(str(o).encode('utf-8'))
+		return 'R(' + ','.join(f'{a}={enc(getattr(o, a), sub)}' for a, sub in t.items()) + ')'
+	return enc(obj, tree)
+
+
 def check(ctx, case):
 	import numpy as np
 	rng = __import__('random').Random(case['seed'])
@@ -126,6 +144,21 @@ def check(ctx, case):
 				             s(rt.name if rt else None), s(rt.rank if rt else None), s(rt.ncbi_id if rt else None), s(rt.distance_threshold if rt else None),
 				             s(cr.closest_match.distance), s(cr.closest_match.genome.description),
 				             s(nt.name if nt else None), s(nt.rank if nt else None), s(nt.ncbi_id if nt else None), s(nt.distance_threshold if nt else None)])
+			# three-way: getattr_nested generated from the current source, on the item as an object graph (the attributes the column paths
+			# mention), against the real function on the real item: every column path, its prefixes, with and without pass_none, a missing name
+			from gambit.results import getattr_nested
+			paths = [p_ for _, p_ in CSVResultsExporter.COLUMNS]
+			for it in res.items[:3]:
+				tok = obj_token(it, paths)
+				probe = set(paths) | {p_.rsplit('.', 1)[0] for p_ in paths} | {'input.zzz', '', 'report_taxon.name.x'}
+				for p_ in sorted(probe):
+					for pn in (True, False):
+						try:
+							v = getattr_nested(it, p_, pass_none=pn)
+							real_v = 'N' if v is None else ('T' + hx(str(v).encode('utf-8')) if isinstance(v, (str, int, float, np.floating, np.integer)) else 'R')
+						except AttributeError:
+							real_v = '!AttributeError'
+						lines.append(f'pyg.getattr {tok} {hx(p_.encode("utf-8")) or "-"} {int(pn)} {real_v}')
 			py = list(csv.reader(io.StringIO(text, newline='')))
 			strs = lambda l: ';'.join(hx(str(x).encode('utf-8')) for x in l) if l else '_'
 			lines.append(f'c11.csv {"|".join(strs(r) for r in rows)} {hx(text.encode("utf-8"))} {"|".join(strs(r) for r in py)}')
